@@ -32,7 +32,15 @@ class List(Expression):
         return not self.min_len or self.min_len == '0'
 
     def can_partially_succeed(self):
-        return not self.always_succeeds() and self.expr.can_partially_succeed()
+        if self.always_succeeds():
+            return False
+
+        # When at least two elements are required, the list can consume some
+        # elements and then fail, even if a single element cannot.
+        if self.min_len == 1 or self.min_len == '1':
+            return self.expr.can_partially_succeed()
+
+        return True
 
     def _compile(self, out, flags):
         if self.max_len == 0 or self.max_len == '0':
